@@ -13,7 +13,7 @@ PROP = {
             "7 kinds of workspace root; distinct = FNV of the case (held or refuted); non-trivial = >= 3 settings, or a collision, a path string, an invalid "
             "file or a Lua file",
     "min_nontrivial": {"quick": 3000, "thorough": 100000},
-    "max_secs": {"quick": 50, "thorough": 900},
+    "max_secs": {"quick": 600, "thorough": 1500},
     "require_clauses": ["a:no-crash", "b:invalid-file-skipped", "family:json", "family:malformed", "family:lua", "family:odd-lua", "family:missing", "family:lua-hang-probe"],
     "assumptions": COMMON_ASSUME + [
         "environment of the expansion: HOME is a private directory, VERIF_TILDE='~', VERIF_EMPTY='', VERIF_UNSET_VARIABLE unset; no luarocks binary",
